@@ -163,6 +163,9 @@ type relayed struct {
 }
 
 func (x *c13) close() {
+	if x.rec.Poisoned() {
+		return // a leaked client mutex: every teardown call would block on it
+	}
 	if x.conn != nil {
 		_ = x.conn.Close()
 	}
